@@ -7,6 +7,7 @@ import (
 	"context"
 	"fmt"
 	"sort"
+	"strings"
 	"sync"
 	"sync/atomic"
 	"time"
@@ -587,7 +588,13 @@ func main() {
 			return
 		}
 		js := map[string]interface{}{"clocks": clocks, "ids": ids}
-		sh, ix := c.Case(hx.Tuple(hx.ZList(clocks), hx.ZList(ids), "[]", "[]", "[]"), js)
+		sig, desc := oracleIDs(clocks, ids)
+		sh, ix := -1, 0
+		// thorough tier: every case goes through the oracle, one in eight random ones (and every
+		// violating one) through the Coq correspondence as well
+		if !c.Thorough() || sig != "" || !strings.HasPrefix(kind, "base") || c.Obs.Evaluations%8 == 0 {
+			sh, ix = c.Case(hx.Tuple(hx.ZList(clocks), hx.ZList(ids), "[]", "[]", "[]"), js)
+		}
 		for i := 1; i < len(clocks); i++ {
 			if d := clocks[i] - clocks[i-1]; d < 4 {
 				c.Nontrivial(fmt.Sprint(clocks))
@@ -595,7 +602,7 @@ func main() {
 			}
 		}
 		c.Sample(js)
-		if sig, desc := oracleIDs(clocks, ids); sig != "" {
+		if sig != "" {
 			c.Violate(sig, "MessageIDGen: "+desc, sh, ix, map[string]interface{}{"clocks": clocks})
 		}
 	}
@@ -748,12 +755,12 @@ func main() {
 			}
 		}
 	}
-	for i := 0; i < c.N(300, 40000); i++ {
+	for i := 0; i < c.N(300, 8000); i++ {
 		cl, k := genClocks(c.Rng)
 		genCase(k, cl)
 	}
 	// one generator shared by several goroutines under a frozen / coarse clock
-	for i := 0; i < c.N(60, 1500); i++ {
+	for i := 0; i < c.N(60, 250); i++ {
 		g := c.Rng.Range(2, 8)
 		clock := int64(1_700_000_000_000_000_000) + int64(c.Rng.Intn(1000))
 		switch c.Rng.Intn(3) {
@@ -767,7 +774,7 @@ func main() {
 	}
 	// requests whose write fails between successful ones (sequential, so that the order is known)
 	faultCase("corpus", 9, []faultOp{{true, ""}, {true, "send"}, {true, ""}, {false, ""}, {true, "encode"}, {true, ""}, {false, "send"}, {true, ""}, {true, "resend"}, {true, ""}, {false, ""}})
-	for i := 0; i < c.N(25, 500); i++ {
+	for i := 0; i < c.N(25, 120); i++ {
 		ops := make([]faultOp, c.Rng.Range(3, 14))
 		for j := range ops {
 			ops[j].Content = c.Rng.Chance(2, 3)
@@ -785,10 +792,10 @@ func main() {
 		faultCase("random", c.Rng.U64(), ops)
 	}
 	// real Conn, sequential then concurrent
-	for i := 0; i < c.N(10, 100); i++ {
+	for i := 0; i < c.N(10, 40); i++ {
 		connCase("sequential", c.Rng.U64(), 1, c.Rng.Range(1, 30))
 	}
-	for i := 0; i < c.N(30, 600); i++ {
+	for i := 0; i < c.N(30, 100); i++ {
 		connCase("concurrent", c.Rng.U64(), 8, c.Rng.Range(2, 8))
 	}
 	c.Obs.Rule = "MessageIDGen cases: scripted clock sequences (corpus incl. the repaired 1000/1001 ns witness, all 4-step patterns over steps {-5,0,1,3,4,9} at two bases, steps back by 1 s..1 day after a burst of ids, random sequences of <=24 readings over frozen/backward/+1..3 ns/coarse steps and steps of every magnitude 1 ns..hours in both directions at small, realistic and second-boundary bases); non-trivial = distinct sequence containing a step below 4 ns (frozen, backwards or sub-resolution). Conn cases: frames written by a real Conn, 1 or 8 goroutines mixing Invoke and service messages, taken in msg_id order; each distinct run counts. Also: one MessageIDGen shared by 2..8 goroutines under a frozen or coarse clock (frozen: sorted ids compared with the sequential model), and sequential Conn runs in which some writes fail (transport error, request that does not encode) between successful ones"
